@@ -13,7 +13,7 @@ Inductive expr : Type :=
  | Ln (a : expr) | Exp (a : expr)     (* platform libm: oracle functions of the carrier *)
  | If (c : bexpr) (t e : expr)
 with bexpr : Type :=
- | Lt (a b : expr) | Le (a b : expr)
+ | Lt (a b : expr) | Le (a b : expr) | Eqf (a b : expr)   (* <, <=, == on f64 *)
  | BAnd (c d : bexpr) | BOr (c d : bexpr) | BNot (c : bexpr) | BTrue | BFalse
  | BAbsDiffEq (a b eps : expr)        (* approx::AbsDiffEq for f64 *)
  | BRelEq (a b eps rel : expr).       (* approx::RelativeEq for f64 *)
@@ -23,14 +23,14 @@ Record Ops (T : Type) : Type := {
   o_add : T -> T -> T; o_sub : T -> T -> T; o_mul : T -> T -> T; o_div : T -> T -> T;
   o_fma : T -> T -> T -> T; o_neg : T -> T; o_max : T -> T -> T;
   o_ln : T -> T; o_exp : T -> T;
-  o_lt : T -> T -> bool; o_le : T -> T -> bool;
+  o_lt : T -> T -> bool; o_le : T -> T -> bool; o_eq : T -> T -> bool;
   o_absdiffeq : T -> T -> T -> bool;
   o_releq : T -> T -> T -> T -> bool;
   o_default : T
 }.
 Arguments o_lit {T}. Arguments o_add {T}. Arguments o_sub {T}. Arguments o_mul {T}.
 Arguments o_div {T}. Arguments o_fma {T}. Arguments o_neg {T}. Arguments o_max {T}.
-Arguments o_ln {T}. Arguments o_exp {T}. Arguments o_lt {T}. Arguments o_le {T}.
+Arguments o_ln {T}. Arguments o_exp {T}. Arguments o_lt {T}. Arguments o_le {T}. Arguments o_eq {T}.
 Arguments o_absdiffeq {T}. Arguments o_releq {T}. Arguments o_default {T}.
 
 Section Eval.
@@ -54,6 +54,7 @@ with beval (env : list T) (c : bexpr) {struct c} : bool :=
   match c with
   | Lt a b => o_lt O (eval env a) (eval env b)
   | Le a b => o_le O (eval env a) (eval env b)
+  | Eqf a b => o_eq O (eval env a) (eval env b)
   | BAnd c d => andb (beval env c) (beval env d)
   | BOr c d => orb (beval env c) (beval env d)
   | BNot c => negb (beval env c)
